@@ -156,8 +156,8 @@ func c56Ops(thorough bool) []vsched.Op {
 
 func TestVerif_C56_globals(t *testing.T) {
 	vx.Run(t, "C56", func(c *vx.Ctx) {
-		bounds := vx.Pick(c, []int{2}, []int{-1})
-		c.Rule("concurrent part: for every unordered pair of calls from a small alphabet (each call runs one or several Parse* functions over a short list of inputs and renders every verdict, value and callback argument in order: ParseDictionary on two (thorough three) input lists with every kind of value, value-less members, parameters, inner lists and rejected inputs with a partial callback sequence; ParseList on two (thorough three); ParseItem; ParseBareInnerList; ParseParameter; ParseDisplayString on two lists with different multi-byte content incl. lone lead octet, invalid octet, truncated sequence, unterminated string; ParseInteger/ParseDecimal/ParseBoolean around the length limits; ParseToken/ParseString/ParseByteSequence/ParseDate) two threads run one call each (thorough: twice each) on the instrumented internal/httpsfv source starting from the package's initial state; every schedule (quick: at most 2 preemptions; thorough: unbounded) at the scheduling points — before each statement mentioning a written package-level variable " + fmt.Sprint(zzWrittenGlobals) + ", sync.Once, sync.Pool Get/Put, sync.Mutex — is executed and each call must return what it returns alone")
+		bounds := vx.Pick(c, []int{2}, []int{3})
+		c.Rule("concurrent part: for every unordered pair of calls from a small alphabet (each call runs one or several Parse* functions over a short list of inputs and renders every verdict, value and callback argument in order: ParseDictionary on two (thorough three) input lists with every kind of value, value-less members, parameters, inner lists and rejected inputs with a partial callback sequence; ParseList on two (thorough three); ParseItem; ParseBareInnerList; ParseParameter; ParseDisplayString on two lists with different multi-byte content incl. lone lead octet, invalid octet, truncated sequence, unterminated string; ParseInteger/ParseDecimal/ParseBoolean around the length limits; ParseToken/ParseString/ParseByteSequence/ParseDate) two threads run one call each (thorough: twice each) on the instrumented internal/httpsfv source starting from the package's initial state; every schedule (quick: at most 2 preemptions; thorough: at most 3) at the scheduling points — before each statement mentioning a written package-level variable " + fmt.Sprint(zzWrittenGlobals) + ", sync.Once, sync.Pool Get/Put, sync.Mutex — is executed and each call must return what it returns alone")
 		c.Assume("concurrent part: statement granularity at mentions of written package-level variables; accesses to heap objects only reachable from them and mutation through method calls are not scheduling points; ParseDate is rendered as Unix seconds; if the package has no written package-level variable there is exactly one schedule per pair (the calls cannot interact through package state) and the part degenerates to a sequential differential test — it is kept because it is what catches a change that introduces shared state")
 		seq := 0
 		if !c.Quick() {
